@@ -14,17 +14,27 @@ package discov
 
 import (
 	"fmt"
+	"sort"
 	"strconv"
+	"strings"
 	"testing"
+	"time"
 
+	"github.com/zeromicro/go-zero/core/discov/internal"
 	"github.com/zeromicro/go-zero/core/logx"
 	"github.com/zeromicro/go-zero/internal/verifh"
+	clientv3 "go.etcd.io/etcd/client/v3"
 )
 
 func TestVerifC13(t *testing.T) {
 	logx.Disable()
-	secs := verifh.Sections(func(r *verifh.Rng) []verifh.Section { return VerifC13Gen(r, 120, 2500, 0) })
+	secs := verifh.Sections(func(r *verifh.Rng) []verifh.Section {
+		return append(VerifC13Gen(r, 120, 2500, 0), c13MultiGen(r)...)
+	})
 	verifh.Run(t, secs, func(cfg verifh.Cfg) (func(op []string) string, func()) {
+		if cfg.Str("h", "") == "multi" {
+			return c13MultiStart(cfg)
+		}
 		ses := VerifNewSession()
 		var opts []SubOption
 		if cfg.Int("excl", 0) == 1 {
@@ -67,4 +77,440 @@ func TestVerifC13(t *testing.T) {
 			}
 		}
 	})
+}
+
+// ---------------------------------------------------------------------------------------------
+// Sections `h=multi n=<2..3> excl=<bits> exact=<0/1>`: ONE process watches several service keys on ONE etcd cluster
+// (one cluster object, one watcher + watch goroutine per key), optionally also one exact key (WithExactMatch) that
+// lies under service 0's prefix.  Registry events are routed like etcd routes them: to every watch that covers the key.
+//
+//   put <s> <k> <v> | del <s> <k> | batch <s> p:<k>:<v> d:<k> …     a watch response for service <s>
+//   reloadc <s> <k>:<v> …                                            compaction on the watch of service <s>
+//   connreload <k>:<v> … / <k>:<v> … / …                             the connection state changes: cluster.reload
+//                                                                    (one snapshot per service, in service order)
+//   close <s>                                                        Subscriber.Close (Registry.Unmonitor): the last
+//                                                                    listener of the key leaves, the watch is cancelled
+//   reopen <s> <k>:<v> …                                             a new subscriber on the key of a closed one
+// Observation: per open service `<s>.log= <s>.vals= <s>.map= <s>.values= <s>.notified= <s>.last=`, `x.values=` for the
+// exact-match subscriber, `rewatched=<s,…>` after a connreload (the watches that were established again),
+// `lost=1` when an event could not be delivered because nothing watches the key any more.
+
+type c13Svc struct {
+	key, prefix string
+	sub         *Subscriber
+	rec         *VerifRecorder
+	n1, n2      int
+	last        string
+	open        bool
+	watched     bool
+}
+
+func c13MultiGen(r *verifh.Rng) []verifh.Section {
+	var secs []verifh.Section
+	nsec := verifh.Scale(24, 300)
+	for i := 0; i < nsec; i++ {
+		n := r.Range(2, 3)
+		nk, nv := r.Range(2, 4), r.Range(2, 4)
+		exact := r.Chance(1, 3)
+		bits := ""
+		for s := 0; s < n; s++ {
+			bits += strconv.Itoa(b2i(r.Chance(1, 4)))
+		}
+		cur := make([]map[int]int, n)
+		open := make([]bool, n)
+		for s := range cur {
+			cur[s] = map[int]int{}
+			open[s] = true
+		}
+		snap := func(s int) []string {
+			if r.Chance(1, 6) {
+				return nil
+			}
+			m := map[int]int{}
+			for k, v := range cur[s] {
+				m[k] = v
+			}
+			keys := make([]int, 0, len(m))
+			for k := range m {
+				keys = append(keys, k)
+			}
+			sort.Ints(keys)
+			for _, k := range keys {
+				switch x := r.Intn(10); {
+				case x < 5:
+				case x < 8:
+					m[k] = r.Intn(nv)
+				default:
+					delete(m, k)
+				}
+			}
+			for j := r.Intn(3); j > 0; j-- {
+				m[r.Intn(nk)] = r.Intn(nv)
+			}
+			keys = keys[:0]
+			for k := range m {
+				keys = append(keys, k)
+			}
+			sort.Ints(keys)
+			var out []string
+			for _, k := range keys {
+				out = append(out, fmt.Sprintf("%d:%d", k, m[k]))
+			}
+			return out
+		}
+		setSnap := func(s int, toks []string) {
+			cur[s] = map[int]int{}
+			applySnap(cur[s], toks)
+		}
+		pickOpen := func() int {
+			var ids []int
+			for s, o := range open {
+				if o {
+					ids = append(ids, s)
+				}
+			}
+			if len(ids) == 0 {
+				return -1
+			}
+			return ids[r.Intn(len(ids))]
+		}
+		var ops []string
+		nops := r.Range(4, verifh.Scale(12, 24))
+		for j := 0; j < nops; j++ {
+			s := pickOpen()
+			x := r.Intn(100)
+			switch {
+			case s >= 0 && x < 35:
+				k, v := r.Intn(nk), r.Intn(nv)
+				cur[s][k] = v
+				ops = append(ops, fmt.Sprintf("put %d %d %d", s, k, v))
+			case s >= 0 && x < 50:
+				k := r.Intn(nk)
+				delete(cur[s], k)
+				ops = append(ops, fmt.Sprintf("del %d %d", s, k))
+			case s >= 0 && x < 58:
+				toks := []string{"batch", strconv.Itoa(s)}
+				for b := r.Range(2, 3); b > 0; b-- {
+					k := r.Intn(nk)
+					if r.Chance(2, 3) {
+						v := r.Intn(nv)
+						cur[s][k] = v
+						toks = append(toks, fmt.Sprintf("p:%d:%d", k, v))
+					} else {
+						delete(cur[s], k)
+						toks = append(toks, fmt.Sprintf("d:%d", k))
+					}
+				}
+				ops = append(ops, strings.Join(toks, " "))
+			case s >= 0 && x < 66:
+				sn := snap(s)
+				setSnap(s, sn)
+				ops = append(ops, strings.TrimSpace(fmt.Sprintf("reloadc %d %s", s, strings.Join(sn, " "))))
+			case x < 86:
+				// reconnect: every service has a snapshot (closed ones: ignored by the code, nothing watches them)
+				var parts []string
+				for t := 0; t < n; t++ {
+					sn := snap(t)
+					if open[t] {
+						setSnap(t, sn)
+					}
+					parts = append(parts, strings.Join(sn, " "))
+				}
+				ops = append(ops, strings.Join(strings.Fields("connreload "+strings.Join(parts, " / ")), " "))
+			case s >= 1 && x < 93:
+				open[s] = false
+				cur[s] = map[int]int{}
+				ops = append(ops, fmt.Sprintf("close %d", s))
+			default:
+				t := -1
+				for u, o := range open {
+					if !o {
+						t = u
+					}
+				}
+				if t >= 0 {
+					sn := snap(t)
+					setSnap(t, sn)
+					open[t] = true
+					ops = append(ops, strings.TrimSpace(fmt.Sprintf("reopen %d %s", t, strings.Join(sn, " "))))
+				}
+			}
+		}
+		secs = append(secs, verifh.Section{Cfg: fmt.Sprintf("h=multi n=%d excl=%s exact=%d", n, bits, b2i(exact)), Ops: ops})
+	}
+	return secs
+}
+
+var c13MultiSeq int
+
+func c13MultiStart(cfg verifh.Cfg) (func(op []string) string, func()) {
+	e := VerifInstallEtcd()
+	e.DropWatches()
+	c13MultiSeq++
+	endpoints := []string{fmt.Sprintf("etcd-verif-multi-%d:2379", c13MultiSeq)}
+	n := cfg.Int("n", 2)
+	bits := cfg.Str("excl", "")
+	svcs := make([]*c13Svc, n)
+	drain := func() {
+		for {
+			select {
+			case <-e.ready:
+			default:
+				return
+			}
+		}
+	}
+	openSvc := func(i int) {
+		sv := svcs[i]
+		var opts []SubOption
+		if i < len(bits) && bits[i] == '1' {
+			opts = append(opts, Exclusive())
+		}
+		drain()
+		sub, err := NewSubscriber(endpoints, sv.key, opts...)
+		if err != nil {
+			panic(err)
+		}
+		sv.sub, sv.rec, sv.open, sv.watched, sv.last = sub, &VerifRecorder{}, true, true, "none"
+		sub.AddListener(func() {
+			sv.n1++
+			sv.last = VerifValIDs(sub.Values())
+		})
+		sub.AddListener(func() { sv.n2++ })
+		sv.prefix = e.AwaitWatchOf(sv.key + "/")
+		if err := internal.GetRegistry().Monitor(endpoints, sv.key, false, sv.rec); err != nil {
+			panic(err)
+		}
+		sv.rec.Take()
+	}
+	for i := range svcs {
+		svcs[i] = &c13Svc{key: fmt.Sprintf("verif.multi.%d.s%d", c13MultiSeq, i)}
+		e.SetSnapshot(svcs[i].key+"/", nil)
+		openSvc(i)
+		svcs[i].n1, svcs[i].n2, svcs[i].last = 0, 0, "none"
+	}
+	// the exact-match subscriber: key 0 of service 0
+	var xsub *Subscriber
+	xkey := VerifKeyName(svcs[0].key, 0)
+	xwatched := false
+	xw := xkey
+	// does x's watch cover its key (etcd delivers an event only to the watches that cover the key)?
+	xcovers := func() bool {
+		e.mu.Lock()
+		defer e.mu.Unlock()
+		return verifCovers(xw, e.prefixed[xw], xkey)
+	}
+	if cfg.Int("exact", 0) == 1 {
+		drain()
+		var err error
+		if xsub, err = NewSubscriber(endpoints, xkey, WithExactMatch()); err != nil {
+			panic(err)
+		}
+		// the watch key is what the code under test built for WithExactMatch (the key itself, no prefix)
+		xw = e.AwaitWatchOf(xkey)
+		xwatched = true
+	}
+	// what etcd does with an event: every watch that covers the key gets it
+	route := func(sv *c13Svc, evs []*clientv3.Event) (lost bool) {
+		if !sv.watched {
+			lost = true
+		} else {
+			e.Push(sv.prefix, clientv3.WatchResponse{Events: evs})
+			e.Sync(sv.prefix)
+		}
+		if xsub != nil && sv == svcs[0] {
+			var mine []*clientv3.Event
+			for _, ev := range evs {
+				if string(ev.Kv.Key) == xkey {
+					mine = append(mine, ev)
+				}
+			}
+			if len(mine) > 0 {
+				if !xwatched {
+					lost = true
+				} else if xcovers() {
+					e.Push(xw, clientv3.WatchResponse{Events: mine})
+					e.Sync(xw)
+				}
+			}
+		}
+		return lost
+	}
+	setSnap := func(sv *c13Svc, toks []string) {
+		kvs := VerifParseKVs(sv.key, toks)
+		e.SetSnapshot(sv.key+"/", kvs)
+		if sv == svcs[0] {
+			var mine []internal.KV
+			for _, kv := range kvs {
+				if kv.Key == xkey {
+					mine = append(mine, kv)
+				}
+			}
+			e.SetSnapshot(xkey, mine)
+		}
+	}
+	wait := 10 * time.Second
+	step := func(op []string) string {
+		extra := ""
+		svc := func(tok string) *c13Svc {
+			i := verifh.Atoi(tok)
+			if i < 0 || i >= n {
+				panic("verif: no such service " + tok)
+			}
+			return svcs[i]
+		}
+		switch op[0] {
+		case "put", "del", "batch":
+			sv := svc(op[1])
+			if !sv.open {
+				return "bad-op"
+			}
+			var evs []*clientv3.Event
+			switch op[0] {
+			case "put":
+				evs = append(evs, verifEvent(sv.key, "p:"+op[2]+":"+op[3]))
+			case "del":
+				evs = append(evs, verifEvent(sv.key, "d:"+op[2]))
+			default:
+				for _, t := range op[2:] {
+					evs = append(evs, verifEvent(sv.key, t))
+				}
+			}
+			if route(sv, evs) {
+				extra = " lost=1"
+			}
+		case "reloadc":
+			sv := svc(op[1])
+			if !sv.open {
+				return "bad-op"
+			}
+			setSnap(sv, op[2:])
+			if !sv.watched {
+				extra = " lost=1"
+				break
+			}
+			drain()
+			e.Push(sv.prefix, clientv3.WatchResponse{CompactRevision: 1, Canceled: true})
+			e.AwaitWatch(sv.prefix)
+			e.Sync(sv.prefix)
+			if xsub != nil && sv == svcs[0] && xwatched {
+				// the exact key lies under this prefix: its watch has lost the same events
+				e.Push(xw, clientv3.WatchResponse{CompactRevision: 1, Canceled: true})
+				e.AwaitWatch(xw)
+				e.Sync(xw)
+			}
+		case "connreload":
+			parts := [][]string{nil}
+			for _, t := range op[1:] {
+				if t == "/" {
+					parts = append(parts, nil)
+				} else {
+					parts[len(parts)-1] = append(parts[len(parts)-1], t)
+				}
+			}
+			if len(parts) != n {
+				return "bad-op"
+			}
+			want := 0
+			for i, sv := range svcs {
+				if sv.open {
+					setSnap(sv, parts[i])
+					want++
+				}
+			}
+			if xsub != nil {
+				want++
+			}
+			drain()
+			done := make(chan struct{})
+			go func() {
+				internal.VerifReload(endpoints)
+				close(done)
+			}()
+			select {
+			case <-done:
+			case <-time.After(wait):
+				wait = 200 * time.Millisecond
+				return "dead=1"
+			}
+			// every watch goroutine that cluster.reload started loads its key and then calls Watch: one token each
+			seen := map[string]bool{}
+			for got := 0; got < want; got++ {
+				select {
+				case k := <-e.ready:
+					seen[k] = true
+				case <-time.After(wait):
+					wait = 200 * time.Millisecond
+					got = want
+				}
+			}
+			var ids []string
+			for i, sv := range svcs {
+				if sv.open {
+					sv.watched = seen[sv.prefix]
+					if sv.watched {
+						e.Sync(sv.prefix)
+						ids = append(ids, strconv.Itoa(i))
+					}
+				}
+			}
+			if xsub != nil {
+				if xwatched = seen[xw]; xwatched {
+					e.Sync(xw)
+					ids = append(ids, "x")
+				}
+			}
+			extra = " rewatched=" + strings.Join(ids, ",")
+		case "close":
+			sv := svc(op[1])
+			if !sv.open {
+				return "bad-op"
+			}
+			sv.sub.Close()
+			internal.GetRegistry().Unmonitor(endpoints, sv.key, false, sv.rec)
+			sv.open, sv.watched = false, false
+		case "reopen":
+			i := verifh.Atoi(op[1])
+			sv := svc(op[1])
+			if sv.open {
+				return "bad-op"
+			}
+			setSnap(sv, op[2:])
+			openSvc(i)
+		default:
+			return "bad-op"
+		}
+		var out []string
+		for i, sv := range svcs {
+			if !sv.open {
+				continue
+			}
+			vals, mp := VerifDumpContainer(sv.sub)
+			noted := strconv.Itoa(sv.n1)
+			if sv.n1 != sv.n2 {
+				noted = fmt.Sprintf("%d/%d", sv.n1, sv.n2)
+			}
+			out = append(out, fmt.Sprintf("%d.log=%s %d.vals=%s %d.map=%s %d.values=%s %d.notified=%s %d.last=%s",
+				i, sv.rec.Take(), i, vals, i, mp, i, VerifValIDs(sv.sub.Values()), i, noted, i, sv.last))
+			sv.n1, sv.n2, sv.last = 0, 0, "none"
+		}
+		if xsub != nil {
+			out = append(out, "x.values="+VerifValIDs(xsub.Values()))
+		}
+		if len(out) == 0 {
+			out = append(out, "none=1")
+		}
+		return strings.Join(out, " ") + extra
+	}
+	return step, func() {
+		for _, sv := range svcs {
+			if sv.open {
+				sv.sub.Close()
+				internal.GetRegistry().Unmonitor(endpoints, sv.key, false, sv.rec)
+			}
+		}
+		if xsub != nil {
+			xsub.Close()
+		}
+	}
 }
